@@ -14,5 +14,6 @@ Pedersen(x, y)  == <<"pedersen", x, y>>      \* pedersen_hash(x, y)
 Masked2(x, y)   == <<"masked", x, y>>        \* build's masked Keccak/Blake2s of be32(x) || be32(y)
 MaskedMany(s)   == <<"maskedmany", s>>       \* build's masked hash of the concatenated be32 cells
 Mont(t)         == <<"mont", t>>             \* t * R, R = 2^256 mod p
+HiBits(t, k)    == <<"hibits", t, k>>        \* t + 2^k: the same low k bits, different high bits
 Seed            == <<"seed">>
 =============================================================================
